@@ -39,6 +39,9 @@ func main() {
 		}
 	}
 	rep.finish(start, *out)
+	if harnessTmpOwned {
+		os.RemoveAll(harnessTmp) // the private temp directory of this run (snapshot recorders, log files)
+	}
 }
 
 // runScripted is the common driver of all script-based modes: corpus first, then generated
